@@ -44,6 +44,11 @@ type scenario struct {
 	Mutate    int
 	MoreAttrs []vlib.ExpAttr
 	Call2     []vlib.ExpAttr
+	// ViaSkip[i]: logger i of the chain (i > 0) is made by WithSkip(1) on its parent instead of New(name)
+	ViaSkip []bool
+	// AncestorCtxKeys: the ancestors have a context key of their own ("anck") and the context holds a value for
+	// it: only the LOGGING logger's keys count, so that value must never be printed
+	AncestorCtxKeys bool
 }
 
 var counter int
@@ -81,8 +86,15 @@ func genScenario(t *rapid.T) scenario {
 		} else {
 			sc.Chain = append(sc.Chain, genList(t, 1, 6, 0))
 		}
-		sc.HowSet = append(sc.HowSet, rapid.IntRange(0, 4).Draw(t, "how"))
+		how := rapid.IntRange(0, 4).Draw(t, "how")
+		via := i > 0 && rapid.IntRange(0, 3).Draw(t, "viaWithSkip") == 0
+		if via && how == 2 {
+			how = 0 // a WithSkip child takes no creation options
+		}
+		sc.HowSet = append(sc.HowSet, how)
+		sc.ViaSkip = append(sc.ViaSkip, via)
 	}
+	sc.AncestorCtxKeys = depth > 1 && rapid.IntRange(0, 2).Draw(t, "ancestorContextKeys") == 0
 	nk := rapid.IntRange(0, 3).Draw(t, "nctxkeys")
 	stringKeys := map[string]bool{}
 	for i := 0; i < nk; i++ {
@@ -193,10 +205,21 @@ func run(t *rapid.T, test string, sc scenario) {
 		if how == 2 && len(own) > 0 {
 			opts = append(opts, slog.With(args...))
 		}
-		if i == 0 {
+		viaSkip := i > 0 && i < len(sc.ViaSkip) && sc.ViaSkip[i]
+		if viaSkip && how == 2 {
+			how = 0
+		}
+		switch {
+		case i == 0:
 			lg = slog.New(opts...)
-		} else {
+		case viaSkip:
+			lg = lg.WithSkip(1)
+			nm = lg.Name()
+		default:
 			lg = lg.New(opts...)
+		}
+		if sc.AncestorCtxKeys && i < len(sc.Chain)-1 {
+			lg.SetContextKeys("anck")
 		}
 		if common != nil && how != 2 {
 			lg.SetAttrs1(common) // the very same slice value for every logger
@@ -254,6 +277,9 @@ func run(t *rapid.T, test string, sc scenario) {
 	}
 	if len(keys) > 0 {
 		lg.SetContextKeys(keys...)
+	}
+	if sc.AncestorCtxKeys {
+		ctx = context.WithValue(ctx, "anck", "a value for an ancestor's context key") //nolint:staticcheck // string key on purpose
 	}
 	if sc.CtxMode != "ctx" {
 		ctxAttrs = nil // nil context or non-context verb: nothing can be found
